@@ -314,22 +314,33 @@ def run_case(case, obs):
                 v.append('mutated')
         dc['label' if attr == 'meta' else 'color'] = 'mutated'
         obs.check(S.fingerprint(region) == fp0, 'meta-copy-shares-state', f'editing {cname}.{attr}.copy() changed the region', 'copy-independent')
-    # --- copy with changes differs in exactly the named field
+    # --- copy with changes differs in exactly the named field(s) - for every field in turn
     parts0 = S.fp_parts(region)
+    done = set()
     for label, pert in perturbations(region, prng):
         if pert is None or isinstance(pert, tuple) or '.' in label.split(' ')[0] and label.split('.')[0] not in region._params:
             continue
         field = label.split(' ')[0].split('.')[0].split('[')[0]
-        if field not in list(region._params) + ['meta', 'visual']:
+        if field not in list(region._params) + ['meta', 'visual'] or field in done:
             continue
+        done.add(field)
         newval = getattr(pert, field)
+        if hasattr(newval, '_params') and hasattr(newval, 'meta'):
+            # an operand replaced by a region that carries its own, different meta and visual
+            import regions as _regions
+            newval = newval.copy(meta=_regions.RegionMeta({'label': 'replacement', 'include': False}), visual=_regions.RegionVisual({'color': 'magenta'}))
+        nv_fp = S.fingerprint(newval)
         c = region.copy(**{field: newval})
+        obs.count('copy-with-changes:' + ('operand' if hasattr(newval, '_params') else 'field'))
         diff = S.diff_parts(parts0, S.fp_parts(c))
         bad = [d for d in diff if not (d == field or d.startswith(field + '.') or d.startswith(field + '['))]
-        obs.check(not bad and S.fingerprint(getattr(c, field)) == S.fingerprint(newval), 'copy-with-changes-wrong-fields',
+        obs.check(not bad and S.fingerprint(getattr(c, field)) == nv_fp, 'copy-with-changes-wrong-fields',
                   f'{cname}.copy({field}=...) differs from the original in {diff}', 'copy-changes')
         obs.check(S.fingerprint(region) == fp0, 'copy-with-changes-mutates-original', f'{cname}.copy({field}=...) changed the original', 'copy-changes')
-        break
+        obs.check(S.fingerprint(newval) == nv_fp, 'copy-with-changes-mutates-argument', f'{cname}.copy({field}=...) changed the value it was given', 'copy-changes')
+        if hasattr(newval, '_params'):
+            sh = set(S.mutable_ids(c.meta)) & set(S.mutable_ids(newval.meta)) | set(S.mutable_ids(c.visual)) & set(S.mutable_ids(newval.visual))
+            obs.check(not sh, 'copy-shares-mutable-state', f'{cname}.copy({field}=X): the copy\'s own meta/visual are objects of X', 'copy-independent')
     # --- equality
     eq_bool(obs, region, region, True, 'eq-not-reflexive', f'{cname} != itself', 'eq-reflexive-symmetric')
     twin = S.build(case['region'])
